@@ -131,3 +131,62 @@ def counter_conjunct(a, e):
     c = int.from_bytes(ad[33:37], "big")
     s = e["stored_count"]
     return c > s or (c == 0 and s == 0)
+
+
+KNOWN_FORMATS = {"none", "packed", "tpm", "android-key", "android-safetynet", "fido-u2f", "apple"}
+
+
+def reg_conjuncts(c, e, strict_none=True):
+    """The conjuncts of C02 for registration fields `c` under expectation `e`: name -> bool.
+    e: challenge, rp_id, origin, require_up, require_uv, algs."""
+    out = client_data_conjuncts(c["client_data_json"], "webauthn.create", e["challenge"], e["origin"])
+    out["id=b64url(raw_id)"] = c["id"] == b64url_nopad(bytes(c["raw_id"]))
+    try:
+        ao = cbor2.loads(bytes(c["attestation_object"]))
+        ad = ao["authData"]
+        fmt = ao["fmt"]
+        stmt = ao.get("attStmt", {})
+    except Exception:
+        out["attestation-object"] = False
+        return out
+    if not isinstance(ad, (bytes, bytearray)) or len(ad) < 37:
+        out["authdata-length"] = False
+        return out
+    out["rp-id-hash"] = ad[:32] == hashlib.sha256(e["rp_id"].encode()).digest()
+    flags = ad[32]
+    out["up-unless-waived"] = (not e.get("require_up", True)) or bool(flags & 1)
+    out["uv-if-required"] = (not e.get("require_uv", False)) or bool(flags & 4)
+    out["attested-data"] = bool(flags & 0x40) and len(ad) >= 55
+    if out["attested-data"]:
+        n = int.from_bytes(ad[53:55], "big")
+        out["credential-id-nonempty"] = n > 0
+        try:
+            key = cbor2.loads(ad[55 + n:])
+            alg = -7 if ad[55 + n:56 + n] == b"\x04" else key[3]
+            out["alg-allowed"] = alg in list(e["algs"])
+        except Exception:
+            out["alg-allowed"] = False
+    out["format-known"] = isinstance(fmt, str) and fmt in KNOWN_FORMATS
+    if fmt == "none":
+        out["none-statement-empty"] = (stmt == {}) if strict_none else not any(
+            stmt.get(m) is not None for m in ("sig", "x5c", "response", "alg", "ver", "certInfo", "pubArea"))
+    return out
+
+
+def reg_expected_record(c, meta_cred=None):
+    """What C05 says the record must report, computed from the authenticator data."""
+    ao = cbor2.loads(bytes(c["attestation_object"]))
+    ad = ao["authData"]
+    flags = ad[32]
+    n = int.from_bytes(ad[53:55], "big")
+    key_and_rest = ad[55 + n:]
+    key = cbor2.loads(key_and_rest)
+    key_bytes = key_and_rest[:len(cbor2.dumps(key))]
+    aaguid = ad[37:53].hex()
+    return {"credential_id": ad[55:55 + n].hex(), "credential_public_key": key_bytes.hex(),
+            "sign_count": str(int.from_bytes(ad[33:37], "big")),
+            "aaguid": f"{aaguid[0:8]}-{aaguid[8:12]}-{aaguid[12:16]}-{aaguid[16:20]}-{aaguid[20:32]}",
+            "fmt": ao["fmt"], "credential_type": "public-key", "user_verified": bool(flags & 4),
+            "attestation_object": bytes(c["attestation_object"]).hex(),
+            "credential_device_type": "multi_device" if flags & 8 else "single_device",
+            "credential_backed_up": bool(flags & 16)}
